@@ -71,7 +71,7 @@ func vCheckDelivered(got []vGot, msgs []vTold, fed []int, frags []vFrag) {
 	}
 }
 
-//verif: sched=coop time=concrete unwind=24 cover=delivered,two-delivered bounds="mbapp: source A tells 2 messages (2 and 3 bytes), source B tells 1 (2 bytes), symbolic contents, inner MTU 25 (1 byte per part, 7 parts); receiver is fed 5 (quick) / 6 (thorough) parts chosen with repetition and omission in every order"
+// verif: sched=coop time=concrete unwind=24 cover=delivered,two-delivered bounds="mbapp: source A tells 2 messages (2 and 3 bytes), source B tells 1 (2 bytes), symbolic contents, inner MTU 25 (1 byte per part, 7 parts); receiver is fed 5 (quick) / 6 (thorough) parts chosen with repetition and omission in every order"
 func VH_C10_mbappReassembly() bool {
 	msgs := []vTold{{src: 1, payload: vBytesN(2)}, {src: 1, payload: vBytesN(3)}, {src: 2, payload: vBytesN(2)}}
 	frags, ok := vTellAll(HeaderSize+1, msgs)
@@ -105,7 +105,7 @@ func VH_C10_mbappReassembly() bool {
 	return true
 }
 
-//verif: sched=coop time=concrete unwind=24 cover=delivered bounds="mbapp round trip: one message of 0..4 symbolic bytes told as 2 iovec chunks over inner MTU 25..27 (1..3 payload bytes per part), all parts delivered in every order: exactly one delivery, payload and addresses intact, sender buffer untouched"
+// verif: sched=coop time=concrete unwind=24 cover=delivered bounds="mbapp round trip: one message of 0..4 symbolic bytes told as 2 iovec chunks over inner MTU 25..27 (1..3 payload bytes per part), all parts delivered in every order: exactly one delivery, payload and addresses intact, sender buffer untouched"
 func VH_C01_mbappRoundTrip() bool {
 	imtu := vInt(HeaderSize+1, HeaderSize+3)
 	msgs := []vTold{{src: 1, payload: vBytes(4)}}
